@@ -331,7 +331,8 @@ package node
 //@   assert@call GetMessages[C08.poll.offset,C13.poll.offset] offset == $offLoaded && $offLoads > $loadsAtFetch
 //@   loop 0 invariant[C13.offset.every] $offsetSaves == $savesAtFetch + $fetched
 //@   loop 1 invariant[C13.offset.every] $offsetSaves == $savesAtFetch + $i + 1 && len($range) == $fetched
-//@   assert@call SaveOffset[C13.offset] arg0 == message.Offset + 1 && ($handledNext == arg0 || !(message.RecipientAddr == "" || message.RecipientAddr == s.userName))
+// (also C08: every fetched message addressed to this node is handled, whatever its id and however the log was split into fetches)
+//@   assert@call SaveOffset[C13.offset,C08.poll.every] arg0 == message.Offset + 1 && ($handledNext == arg0 || !(message.RecipientAddr == "" || message.RecipientAddr == s.userName))
 
 // reconstruction works on the same common expansion and hands each message's payload to the BLS library unchanged (C03)
 // whatever partial signatures and message identifiers a (verified) participant sent, reconstruction answers with
